@@ -422,6 +422,15 @@ def main():
         items.append((3, 3, 'cu', 7, 4, (1, 2), (), (), Fr(-1), True, None))
         items.append((2, 4, 'nu', 5, 4, (2, 1), (2, -2), (1,), Fr(-1), False, None))
         items.append((1, 2, 'nu', 3, 4, (2, 1), (1, -1), (1,), Fr(-1), False, None))      # pure Neumann on mode 1 with C != 0 (64 funcIsNull paths)
+        # more degrees, exactness requests, process grids, boundary sets; function right-hand sides on several grids
+        items.append((4, 3, 'nu', 8, 4, (2, 2), (0,), (1,), Fr(-1), False, None))
+        items.append((3, 4, 'ng', 6, 6, (3, 2), (0, 1), (), Fr(2), False, None))
+        items.append((2, 4, 'ng', 5, 4, (1, 2), (), (0, -1), Fr(1, 2), False, None, True))
+        items.append((1, 5, 'nu', 3, 6, (3, 1), (2,), (), Fr(-1), False, None, True))
+        items.append((3, 3, 'cu', 3, 4, (2, 2), (1,), (), Fr(-1), False, None))
+        items.append((2, 3, 'nu', 4, 4, (2, 1), (0,), (0,), Fr(-1), True, None))               # ill-posed on two processes: refused
+        items.append((4, 2, 'nu', 3, 4, (1, 1), (0,), (), Fr(-1), False, None))                # exactness below the degree, degree 4
+        items.append((3, 3, 'ng', 6, 4, (1, 2), (-1,), (1,), Fr(-1), False, None, True))
     items.append((2, 3, 'nu', 4, 4, (1, 1), (0,), (), Fr(-1), False, None, True))          # right-hand side given as a function
     items.append((2, 2, 'nu', 4, 4, (1, 1), (1,), (1,), Fr(-1), True, None, False, True))   # ill-posed on a mode other than 0 (C = D = 0): must be refused
     items.append((1, 3, 'nu', 7, 4, (1, 1), (0,), (), Fr(-1), False, None))                 # requested exactness well above 2p+1
